@@ -646,6 +646,11 @@ func classifyPayload(c *Ctx, f *ssa.Function, v ssa.Value) string {
 			// sendDataV2(buffer): produced by the framer / split of framer data — traced by C01-R1's placement
 			cls = "framer output handed in by the send stage"
 		default:
+			// "#" + type + ":" + ... : the same protocol line, concatenated instead of formatted
+			if parts, ok := stringParts(l.V); ok && len(parts) > 1 && strings.HasPrefix(parts[0].lit, "#") {
+				cls = "a protocol line built from type name, integers or encoded text"
+				continue
+			}
 			return ""
 		}
 	}
